@@ -163,6 +163,7 @@ type gstate struct {
 	near     map[string]bool
 	phantoms []string
 	lastReq  []string
+	via      string // how the files of the mutation being emitted reach their names
 }
 
 // add appends an action for this wallet to the (shared, interleaved) action sequence.
@@ -198,6 +199,9 @@ func (g *gstate) emit(files []File, acts bool) {
 		}
 		if acts {
 			ff := f
+			if !ff.Dir && ff.Link == "" {
+				ff.Via = g.via
+			}
 			g.add(Action{Op: "write", File: &ff})
 		} else {
 			g.c.Files = append(g.c.Files, f)
@@ -498,6 +502,7 @@ func (g *gstate) mutate(rt *rapid.T) {
 	if g.full() {
 		return
 	}
+	g.via = weighted(rt, "via", "", 6, "rename", 4)
 	cfg := g.c.Cfg
 	dw := 0
 	if cfg.Default {
